@@ -159,6 +159,21 @@ func runThoroughMutants(res *Result, prop, repo, verif string) {
 		}
 		runs = append(runs, &mutantRun{ID: fmt.Sprintf("edit/%s-%d", prop, i), Note: m.Note, Args: []string{"-edit-file", m.File, "-edit-old", m.Old, "-edit-new", m.New}})
 	}
+	// behaviour-preserving edits: the check must stay silent on every one of them
+	var benign []*mutantRun
+	for _, dir := range []string{"benign", "benign2"} {
+		files, _ := filepath.Glob(filepath.Join(verif, dir, "*", "*.diff"))
+		sort.Strings(files)
+		for _, f := range files {
+			rel, _ := filepath.Rel(verif, f)
+			benign = append(benign, &mutantRun{ID: rel, Args: []string{"-patch", f}})
+		}
+	}
+	runs = append(runs, benign...)
+	isBenign := map[*mutantRun]bool{}
+	for _, b := range benign {
+		isBenign[b] = true
+	}
 	sem := make(chan struct{}, 8)
 	var wg sync.WaitGroup
 	for _, mr := range runs {
@@ -205,7 +220,21 @@ func runThoroughMutants(res *Result, prop, repo, verif string) {
 		}(mr)
 	}
 	wg.Wait()
+	benignTried, benignSilent := 0, 0
+	var benignLog []string
 	for _, mr := range runs {
+		if isBenign[mr] {
+			if strings.HasPrefix(mr.Status, "skipped") {
+				continue
+			}
+			benignTried++
+			if mr.Status == "survived" {
+				benignSilent++
+			} else {
+				benignLog = append(benignLog, mr.ID+": reported ("+mr.Rules+") — the rule does not recognise this form; see DESIGN.md §10.4")
+			}
+			continue
+		}
 		if strings.HasPrefix(mr.Status, "skipped") {
 			res.MutantLog = append(res.MutantLog, mr.ID+": "+mr.Status)
 			continue
@@ -223,7 +252,16 @@ func runThoroughMutants(res *Result, prop, repo, verif string) {
 		}
 		res.MutantLog = append(res.MutantLog, line)
 	}
-	fmt.Printf("%s: thorough: %d seeded/edited variants tried in memory, %d reported\n", prop, res.MutantsTried, res.MutantsKill)
+	res.Extra["benign_variants_tried"] = benignTried
+	res.Extra["benign_variants_silent"] = benignSilent
+	if benignLog == nil {
+		benignLog = []string{}
+	}
+	res.Extra["benign_variants_reported"] = benignLog
+	fmt.Printf("%s: thorough: %d seeded/edited variants tried in memory, %d reported; %d behaviour-preserving variants tried, %d silent\n", prop, res.MutantsTried, res.MutantsKill, benignTried, benignSilent)
+	for _, l := range benignLog {
+		fmt.Println("  " + l)
+	}
 	for _, l := range res.MutantLog {
 		if !strings.Contains(l, ": killed") {
 			fmt.Println("  " + l)
